@@ -35,6 +35,9 @@ def run(ctx: Context) -> None:
     ctx.rule(r1_teardown)
     ctx.rule(c02.r2_aligned, v)
     ctx.rule(no_swallowing, v)
+    # a retried batch is run by the sampler whose turn it was: the round-robin position advances in update(), not when the sampler is handed out (C09-R1)
+    from . import c09
+    ctx.rule(c09.r1_round_robin)
     thorough = ctx.tier == "thorough"
     ctx.rule(run_product, ("C11", "C10"), True, plans(3, 2) if thorough else plans(2, 2), "with-faults")
 
@@ -157,5 +160,35 @@ def no_swallowing(ctx: Context, v: CalibrateView) -> None:
                 ctx.check(p is None, "R3.propagate", key, f"the `except {typ}` handler around `{src(carriers[0].func)[:40]}` re-raises",
                           f"`except {typ}` in {f.qualname.split(':')[1]} ends normally although its try-body runs `{src(carriers[0])[:60]}`: an exception raised there by the model / the loss / "
                           "a sampler is swallowed instead of being propagated by calibrate()", f, h, path_text(f, p))
+    # handlers that do re-raise (the front end reads such a try as its body and keeps a record): what leaves must be the exception that was caught
+    from .. import align
+    on_path = {(f.module.name, f.qualname.split(":")[1]) for f in funcs}
+    by_name = {(f.module.name, f.qualname.split(":")[1]): f for f in funcs}
+    for rec, body, h in align.RERAISING_TRY_NODES:
+        key_f = (rec["module"], rec["function"])
+        if key_f not in on_path:
+            continue
+        f = by_name[key_f]
+        n_try += 1
+        carriers = []
+        for st in body:
+            for c in [x for x in ast.walk(st) if isinstance(x, ast.Call)]:
+                try:
+                    ts = prog.resolve_call(f, c)
+                except AnalysisError:
+                    ts = []
+                if any(isinstance(x, FI) and not (x.cls is not None and x.name == "__init__") for x in ts):
+                    carriers.append(c)
+                elif isinstance(c.func, ast.Attribute) and isinstance(c.func.value, ast.Name) and c.func.value.id == f.self_name and f.cls is not None and prog.lookup_method(f.cls, c.func.attr) is None:
+                    carriers.append(c)
+                elif isinstance(c.func, ast.Name) and c.func.id in f.params or (isinstance(c.func, ast.Name) and any(isinstance(g_, ast.comprehension) and c.func.id in {x.id for x in ast.walk(g_.target) if isinstance(x, ast.Name)} for g_ in ast.walk(f.node))):
+                    carriers.append(c)      # a callable handed in by the user (a coordinate filter, a moment calculator)
+        if not carriers:
+            continue
+        new = [r for r in rec["raises"] if r != "same"]
+        ctx.check(not new, "R3.propagate", f"{rec['function']}:reraise:{rec['catches']}:{' '.join(src(carriers[0].func).split())[:40]}",
+                  f"the `except {rec['catches']}` handler around `{src(carriers[0].func)[:40]}` re-raises the exception it caught",
+                  f"`except {rec['catches']}` in {rec['function']} raises `{new[0][4:] if new else ''}` instead of the exception it caught from `{src(carriers[0])[:50]}`: what calibrate() propagates "
+                  "is then a different exception object (for error classes with their own constructor even a different type) than the one the model / loss / sampler raised", f, h)
     ctx.ok("R3.propagate", "batch-path:scanned", f"{len(funcs)} functions reachable from calibrate scanned, {n_try} try statement(s)")
     ctx.floor("R3", "functions reachable from calibrate", len(funcs), 25)
